@@ -32,6 +32,10 @@ type taskState struct {
 	done   bool
 	panic  string
 	result []string
+	// lastTick: fake time of this background task's last ticker wake-up (or of
+	// its first event), see sched.incrInterval
+	lastTick    time.Duration
+	hasLastTick bool
 }
 
 type sched struct {
@@ -55,6 +59,14 @@ type sched struct {
 	// sleeping monitor.
 	bgNoSleep bool
 	nfg       int
+	// incrInterval / smartInterval: the ticker periods of the library's two
+	// background loops. A background task may sleep at a yield point only if it
+	// wakes before its ticker's next firing. Otherwise, back at its select, both
+	// a pending tick and a stop/cancel request could be ready, and Go's select
+	// chooses among ready cases with the runtime's unseeded PRNG - the one
+	// source of nondeterminism the simulator could not own any other way.
+	incrInterval  time.Duration
+	smartInterval time.Duration
 }
 
 var cur *sched
@@ -122,7 +134,8 @@ func (s *sched) yield(site string) {
 	if d <= 0 || s.steps > s.maxSteps {
 		return
 	}
-	if s.bgNoSleep && i >= s.nfg && t.name != "main" {
+	bg := i >= s.nfg && t.name != "main"
+	if s.bgNoSleep && bg {
 		return
 	}
 	for _, p := range s.noSleep {
@@ -130,7 +143,31 @@ func (s *sched) yield(site string) {
 			return
 		}
 	}
+	if bg {
+		now := time.Since(s.start)
+		if !t.hasLastTick || (len(site) > 5 && site[len(site)-5:] == ".tick") {
+			t.lastTick, t.hasLastTick = now, true
+		}
+		iv := s.incrInterval
+		if len(site) >= 5 && (site[:5] == "smart" || site[:5] == "selec") {
+			iv = s.smartInterval
+		}
+		if iv > 0 && s.wakeFor(now, d) >= t.lastTick+iv-slot/2 {
+			return // would sleep across the next tick
+		}
+	}
 	s.sleepSlots(d)
+}
+
+// wakeFor computes the wake-up instant sleepSlots would choose.
+//
+//go:norace
+func (s *sched) wakeFor(now time.Duration, d int64) time.Duration {
+	want := (now/slot + time.Duration(d)) * slot
+	if want <= s.nextWake {
+		want = s.nextWake + slot
+	}
+	return want
 }
 
 // sleepSlots sleeps d slots of fake time, at a wake-up instant no other harness
